@@ -304,11 +304,17 @@ class extract_visitor(NodeVisitor):
         else:
             items = node.items
 
-        for it in items:
+        for i, it in enumerate(items):
             if it.optional_vars:
+                # a target is bound before the next item is evaluated:
+                # with A() as a, B(a) as b: ...
+                if i + 1 < len(items):
+                    loc = np(items[i + 1].context_expr)
+                else:
+                    loc = np(node.body[0])
                 for nn, _idx in get_indexes_for_target(it.optional_vars, [], []):
                     name = nn  # type: ast.Name # type: ignore[assignment]
-                    self.flow.add_name(AssignedName(name.id, np(node.body[0]), np(name), node))
+                    self.flow.add_name(AssignedName(name.id, loc, np(name), node))
 
         self.generic_visit(node)
 
